@@ -18,7 +18,7 @@
 use std::cell::RefCell;
 use std::collections::HashMap;
 
-use yarel::error::Error;
+use yarel::error::{Error, ErrorKind};
 use yarel::memory::verif as gcv;
 use yarel::value::Value;
 use yarel::vm::{self, Vm};
@@ -58,6 +58,24 @@ fn heap_probe(_vm: &mut Vm, _num_args: usize) -> Result<Value, Error> {
     Ok(Value::None)
 }
 
+// module loader of `c16`: `throwing_*` loads and throws at top level after building heap data and a function,
+// `broken_*` does not compile, `fine_*` loads, everything else is not found
+fn c16_loader(path: &str) -> Result<String, Error> {
+    let name = path.rsplit('/').next().unwrap_or(path);
+    if name.starts_with("throwing_") {
+        Ok("var big = [1, 2, 3]; fn f() { return big; } var c = || big; throw (big, f, c);".to_owned())
+    } else if name.starts_with("broken_") {
+        Ok("var big = [1, 2, 3]; var = ;".to_owned())
+    } else if name.starts_with("fine_") {
+        Ok("var big = [1, 2, 3]; fn f() { return big; }".to_owned())
+    } else {
+        Err(Error::with_message(
+            ErrorKind::ImportError,
+            &format!("Unable to read file '{}.yl' (file not found).", path),
+        ))
+    }
+}
+
 fn kinds_line(tag: &str, kinds: &[(&'static str, usize)]) -> String {
     let parts: Vec<String> = kinds
         .iter()
@@ -75,6 +93,7 @@ fn cmd_c16(args: &[&str], out: &mut Vec<String>) {
     gcv::set_logging(true);
     gcv::take_alloc_log();
     let mut vm = crate::new_vm();
+    vm.set_module_loader(c16_loader);
     vm.define_native("main", "heap_probe", heap_probe);
     drain_log();
     out.push(format!("B {}", LOG.with(|l| l.borrow().len())));
